@@ -179,6 +179,23 @@ func (r *Slice) Resolved() (*Slice, error) {
 // As IndexInt, but integers too big for an int are clamped, not rejected
 // (as _PyEval_SliceIndex does): x[:2**100] is the same as x[:]
 func sliceIndexInt(a Object) (int, error) {
+	switch a.(type) {
+	case Int, *BigInt, Bool:
+	default:
+		// an object with __index__: its value is the bound, and it is
+		// clamped like any other int when it is beyond the machine word
+		if A, ok, err := TypeCall0(a, "__index__"); ok {
+			if err != nil {
+				return 0, err
+			}
+			switch A.(type) {
+			case Int, *BigInt, Bool:
+				a = A
+			default:
+				return 0, ExceptionNewf(TypeError, "__index__ returned non-int: (type %s)", A.Type().Name)
+			}
+		}
+	}
 	if b, ok := a.(*BigInt); ok {
 		if _, err := b.Int(); err != nil {
 			const maxInt = int(^uint(0) >> 1)
